@@ -125,3 +125,23 @@ macro_rules! verif_avx_algo {
 verif_avx_algo!(avx_algo_f32, f32);
 #[cfg(all(target_arch = "x86_64", feature = "avx"))]
 verif_avx_algo!(avx_algo_f64, f64);
+
+/// the crate-private `SseRadix4` over an arbitrary base FFT
+#[cfg(all(target_arch = "x86_64", feature = "sse"))]
+pub fn sse_radix4_f64(
+    k: u32,
+    base: std::sync::Arc<dyn crate::Fft<f64>>,
+) -> Option<std::sync::Arc<dyn crate::Fft<f64>>> {
+    crate::sse::sse_radix4::SseRadix4::<f64, f64>::new(k, base)
+        .ok()
+        .map(|f| std::sync::Arc::new(f) as std::sync::Arc<dyn crate::Fft<f64>>)
+}
+#[cfg(all(target_arch = "x86_64", feature = "sse"))]
+pub fn sse_radix4_f32(
+    k: u32,
+    base: std::sync::Arc<dyn crate::Fft<f32>>,
+) -> Option<std::sync::Arc<dyn crate::Fft<f32>>> {
+    crate::sse::sse_radix4::SseRadix4::<f32, f32>::new(k, base)
+        .ok()
+        .map(|f| std::sync::Arc::new(f) as std::sync::Arc<dyn crate::Fft<f32>>)
+}
